@@ -137,7 +137,9 @@ def shrink_cases(case):
 
 
 def wire_total(ctx):
-    return sum(p.total for p in ctx.w.pipes)
+    # bytes the calling (initiating) process has written so far, on all its pipes and sockets.  (Not the sum over all
+    # pipes of the world: a via master may still be forwarding the tail of an *earlier* message to its sub.)
+    return getattr(ctx.s.current.proc, "bytes_written", 0)
 
 
 def load_module(path, name):
